@@ -48,3 +48,8 @@ Proof. split; vm_compute; reflexivity. Qed.
 (* the read buffer of a connection is the generated defaultBufferSize *)
 Lemma buffer_matches : Z.of_nat buffer_size = nsqd_defaultBufferSize.
 Proof. vm_compute. reflexivity. Qed.
+
+(* the order of the tests, allocations, reads and core calls of every handler is the one
+   the model was written against *)
+Lemma checks_match : source_order = handler_checks.
+Proof. vm_compute. reflexivity. Qed.
